@@ -129,6 +129,15 @@ func ruleNoOrderDep(w *World, r *Report, in map[*ssa.Function]bool) {
 					}
 				}
 			}
+			// a counted loop that visits every position (for i := 0; i < len(xs); i++ { xs[i] })
+			// is a traversal, like a range loop
+			if idx != nil {
+				for hdr := range countedLoopsOver(f, base) {
+					if ph, ok := idx.(*ssa.Phi); ok && ph.Block() == hdr {
+						return
+					}
+				}
+			}
 			if !mapOrdered(w, f, base, 0) {
 				return
 			}
@@ -491,8 +500,38 @@ func ruleCorridor(w *World, r *Report) {
 		}
 		if good {
 			r.add("FILTER-SUBSET", key, w.Pos(ap.Pos()), Discharged, "append of the current candidate, confined to distance < radius (the parameter itself)")
-		} else {
-			r.add("FILTER-SUBSET", key, w.Pos(ap.Pos()), Violated, "the append is not confined to the branch where the measured distance is below the radius parameter itself")
+			continue
+		}
+		// positive evidence: a float comparison inside the loop against an expression that is
+		// computed from the radius (2*radius, radius+eps) guards the append, or nothing guards it
+		scaled, guarded := "", false
+		for _, blk := range f.Blocks {
+			t, fl, ifi := ifSuccs(blk)
+			if ifi == nil || !loop.blocks()[blk] || blk == loop.Header {
+				continue
+			}
+			for _, succ := range []*ssa.BasicBlock{t, fl} {
+				if succ == ap.Block() || blockDominatedByEdge(f, blk, succ, ap.Block()) {
+					guarded = true
+				}
+			}
+			c, ok := ifi.Cond.(*ssa.BinOp)
+			if !ok || !isFloatType(c.X.Type()) {
+				continue
+			}
+			for _, side := range []ssa.Value{c.X, c.Y} {
+				if b, isB := resolve(side).(*ssa.BinOp); isB && (resolve(b.X) == ssa.Value(radius) || resolve(b.Y) == ssa.Value(radius)) {
+					scaled = shortInstr(c)
+				}
+			}
+		}
+		switch {
+		case scaled != "":
+			r.add("FILTER-SUBSET", key, w.Pos(ap.Pos()), Violated, "the append is guarded by a comparison with an expression computed from the radius, not with the radius itself ("+scaled+")")
+		case !guarded:
+			r.add("FILTER-SUBSET", key, w.Pos(ap.Pos()), Violated, "the append is unconditional inside the loop over the candidates: every candidate is added whatever its distance")
+		default:
+			r.add("FILTER-SUBSET", key, w.Pos(ap.Pos()), Undecided, "the append is guarded by a test that was not recognised as distance < radius (a helper or closure result)")
 		}
 	}
 }
@@ -901,7 +940,7 @@ func ruleProjection(w *World, r *Report, fn string, forward bool) {
 	if ee != nil && hasRealReferrer(ee) && errTested(f, scFor(w), ee) {
 		okErr = true
 	}
-	codeOK := false
+	codeOK, otherCode := false, ""
 	if p := w.PkgByRel["common/errors"]; p != nil {
 		if c, ok := p.Types.Scope().Lookup("ValueConvertErrorCode").(*types.Const); ok {
 			want := constant.StringVal(c.Val())
@@ -912,15 +951,24 @@ func ruleProjection(w *World, r *Report, fn string, forward bool) {
 				if ec, ok := resolve(ret.Results[1]).(*ssa.Call); ok && calleeIs(ec, modPath+"/common/errors", "NewSpatialIdError") {
 					if s, ok := constString(ec.Call.Args[0]); ok && s == want {
 						codeOK = true
+					} else if ok {
+						otherCode = s
 					}
 				}
 			}
 		}
 	}
-	if okErr && codeOK {
+	dropped := ee == nil || !hasRealReferrer(ee)
+	switch {
+	case okErr && codeOK:
 		r.add("ERRUSED", fn+" / transform error", w.Pos(tcall.Pos()), Discharged, "the transform's error is tested in every iteration and mapped to ValueConvertErrorCode")
-	} else {
-		r.add("ERRUSED", fn+" / transform error", w.Pos(tcall.Pos()), Violated, fmt.Sprintf("the transform's error is not tested (%v) or not reported as the value-conversion error (%v)", okErr, codeOK))
+	case dropped:
+		r.add("ERRUSED", fn+" / transform error", w.Pos(tcall.Pos()), Violated, "the transform's error result is discarded: an unknown EPSG code or a point outside the CRS area yields coordinates without an error")
+	case otherCode != "" && !codeOK:
+		r.add("ERRUSED", fn+" / transform error", w.Pos(tcall.Pos()), Violated, "a failed transform is reported with error code "+otherCode+" instead of the value-conversion error")
+	default:
+		// carried in a variable to a single exit, wrapped by a helper, a sentinel: not followed
+		r.add("ERRUSED", fn+" / transform error", w.Pos(tcall.Pos()), Undecided, fmt.Sprintf("the transform's error is used, but it was not recognised as tested in place (%v) and reported as the value-conversion error (%v)", okErr, codeOK))
 	}
 	// transform inputs come from this iteration's element
 	elemOf := func(v ssa.Value) bool {
